@@ -194,7 +194,7 @@ Definition exp_sk_VFS_RemoveWithPrivileges : list sk := [
   SkRet "bare"%string;
   SkEndIf;
   SkOp HLstat "dir"%string;
-  SkIf "lErr != nil || !IsSymLink(info)"%string;
+  SkIf "lErr == nil && !IsSymLink(info)"%string;
   SkOp HChown "dir"%string;
   SkEndIf;
   SkIf "subErr == nil"%string;
